@@ -96,6 +96,11 @@ def main():
     for p in pl:
         for seed, iters in ([(5, 400)] if quick else [(5, 400), (11, 1500), (123, 50)]):
             plans.append("PLAN %s %d %d" % (p, seed, iters))
+    # a lattice world (two discrete components): distances are integers, so nearest-neighbour ties are the rule and every
+    # tie-break inside the structures (order of child visits in the GNAT, ...) has to come from the seed as well
+    for p in (["RRT", "RRTConnect", "RRTstar", "EST"] if quick else ["RRT", "RRTConnect", "RRTstar", "LazyRRT", "EST", "KPIECE1", "SBL", "SST", "STRIDE"]):
+        for seed, iters in ([(9, 3000), (17, 3000), (23, 6000)] if quick else [(9, 3000), (17, 3000), (23, 6000), (42, 3000), (10, 6000), (26, 6000), (7, 12000), (8, 1000)]):
+            plans.append("PLAN %s %d %d grid" % (p, seed, iters))
     nplan = 0
     t_pl = 0.0
     for pln in plans:
@@ -104,12 +109,30 @@ def main():
         r2 = vf.sh([drv], input=pln + "\n", timeout=300, env=env)
         t_pl += r1[3] + r2[3]
         nplan += 1
+        if pln.endswith("grid") and r1[1] == r2[1]:     # a third and fourth process for the tie-prone world
+            for pad in (17, 777):
+                env = dict(os.environ); env["VERIF_PAD"] = "y" * pad
+                r3 = vf.sh([drv], input=pln + "\n", timeout=300, env=env); t_pl += r3[3]
+                if r3[1] != r1[1]: r2 = r3; break
         if r1[1] != r2[1] or not r1[1].startswith("plan"):
             npred += 1
             if first_pred is None: first_pred = ([pln], "two processes with the same seed disagree: %r vs %r" % (r1[1].strip(), r2[1].strip()))
+    # ---- source obligation: no entropy source other than ompl::RNG's seed generator in the planning code
+    import re as _re
+    hits = []
+    for sub in ("base", "geometric", "control", "multilevel", "datastructures", "util"):
+        for root, _, files in os.walk(os.path.join(vf.REPO, "src", "ompl", sub)):
+            for f in files:
+                if not f.endswith((".h", ".cpp", ".hpp")) or f == "RandomNumbers.cpp": continue
+                for ln, t in enumerate(open(os.path.join(root, f), errors="replace"), 1):
+                    if _re.search(r"std::random_device|\bsrand\s*\(|\btime\s*\(\s*(NULL|nullptr|0)\s*\)", t) and not t.lstrip().startswith("//"):
+                        hits.append("%s:%d: %s" % (os.path.relpath(os.path.join(root, f), vf.REPO), ln, t.strip()[:120]))
+    c.cov["entropy_sources_outside_RNG"] = hits
+    if hits and first_pred is None:
+        c.broken.append("source obligation C20: a random generator is seeded from something other than the global seed: " + "; ".join(hits[:3]))
     c.step("impl:planners-twice", drv + " PLAN ... (two processes each)", t_pl, True)
     c.cov.update({"evaluations": nobs + len(streams) + 2 * nplan, "traces_validated_against_impl": len(scripts), "distinct_nontrivial": len(set(tuple(s) for s in scripts if len(s) > 3)),
-                  "rule": "global seeds (small, 2^31-1, the LCG modulus and its successor, > 2^32, random) x first 12/50 local seeds; random SET/NEW/GET histories incl. seed 0 and late setSeed; 150+ reseed-stream patterns with pending normal/sphere caches; planners run twice in separate processes; non-trivial = distinct script with > 3 ops",
+                  "rule": "global seeds (small, 2^31-1, the LCG modulus and its successor, > 2^32, random) x first 12/50 local seeds; random SET/NEW/GET histories incl. seed 0 and late setSeed; 150+ reseed-stream patterns with pending normal/sphere caches; planners run twice in separate processes on a continuous world and 2-4 times on a 100 x 100 lattice world (integer distances: nearest-neighbour ties); non-trivial = distinct script with > 3 ops",
                   "disagreements": ndiff, "predicate_failures": npred, "stream_patterns": len(streams), "planner_runs": 2 * nplan, "planners": pl})
     c.cov["samples"] = [" ; ".join(scripts[0][:6]), streams[0], plans[0]]
     c.cov["trusted_base"] += ["extraction (ExtrOcamlBasic) + extract/seed_driver.ml; harness/seed_driver.cpp",
